@@ -4,7 +4,7 @@
     by the extracted OCaml runner, so the two evaluation routes check each other.
     Nothing in this file is used by a theorem. *)
 From Coq Require Import String.
-From OtpV Require Import Prelude Sha Tables Errors Decoder Derive Otp Ocra Rfc4226 Rfc6287.
+From OtpV Require Import Prelude Sha Tables Errors Decoder Derive Otp Ocra Rfc4226 Rfc6287 Rfc4648 Utils Random.
 Open Scope string_scope.
 Open Scope N_scope.
 Open Scope list_scope.
@@ -90,6 +90,44 @@ Definition period_of (p : option param) : N :=
 
 Definition two62z : Z := 4611686018427387904%Z.
 
+Definition run_fields4 (f : list bytes) : bytes * bool := (s2b "unknown-op", true).
+
+(** [scan <case>]: harness self-check that the error text of the inner case discloses neither
+    secret nor expected code; the model's answer is the constant "clean" (C13 theorems). *)
+Definition run_fields3 (f : list bytes) : bytes * bool :=
+  if bytes_eqb (fld f 0) (s2b "scan") then (s2b "clean", true) else run_fields4 f.
+
+Definition r_input (o : outcome ocra_input) : bytes :=
+  match o with
+  | Ok i => s2b "ok:x" ++ hex_of (oi_counter i) ++ s2b ",x" ++ hex_of (oi_challenge i) ++ s2b ",x" ++ hex_of (oi_password i)
+            ++ s2b ",x" ++ hex_of (oi_session i) ++ s2b ",x" ++ hex_of (oi_timestamp i)
+  | Err e => r_err e
+  | Panic => s2b "panic"
+  end.
+
+Definition r_history (h : list (nat * outcome bytes)) : bytes :=
+  s2b "r:" ++ flat_map (fun '(pos, o) =>
+      dec_of_N (N.of_nat pos) ++ [58] ++ match o with Ok sec => sec | _ => s2b "err" end ++ [59]) h.
+
+(** operations added after the first batch: utils, random secrets *)
+Definition run_fields2 (f : list bytes) : bytes * bool :=
+  let a i := fld f i in
+  let op := a 0%nat in
+  if bytes_eqb op (s2b "to8") then (s2b "ok:" ++ hex_of (to8 (parse_N (a 1%nat))), true)
+  else if bytes_eqb op (s2b "pdec8a") || bytes_eqb op (s2b "pdec8b") then (r_bytes (parse_decimal_be8 (unhx (a 1%nat))), true)
+  else if bytes_eqb op (s2b "lpad") then
+    let w := parse_Z (a 2%nat) in (r_bytes (left_pad_hex (unhx (a 1%nat)) w), (0 <=? w)%Z && (w <=? 1048576)%Z)
+  else if bytes_eqb op (s2b "phexts") then (r_bytes (parse_hex_timestamp (unhx (a 1%nat))), true)
+  else if bytes_eqb op (s2b "pchal") then (r_bytes (parse_decimal_challenge (unhx (a 1%nat))), true)
+  else if bytes_eqb op (s2b "hexin") then
+    (r_input (hex_input_to_ocra (unhx (a 1%nat)) (unhx (a 2%nat)) (unhx (a 3%nat)) (unhx (a 4%nat)) (unhx (a 5%nat))), true)
+  else if bytes_eqb op (s2b "b32enc") then (s2b "ok:" ++ hex_of (b32_nopad (unhx (a 1%nat))), true)
+  else if bytes_eqb op (s2b "rand") then
+    let buf := unhx (a 1%nat) in
+    (r_history (run_calls (fun i => nth i buf 0) 0 (map parse_N (split_on 44 (a 2%nat)))), true)
+  else if bytes_eqb op (s2b "randconc") then (s2b "ok:", true)    (* harness self-check; see C08 *)
+  else run_fields3 f.
+
 Definition run_fields (f : list bytes) : bytes * bool :=
   let a i := fld f i in
   let op := a 0%nat in
@@ -131,7 +169,7 @@ Definition run_fields (f : list bytes) : bytes * bool :=
   else if bytes_eqb op (s2b "svalidate") then (r_unit (suite_validate (parse_suite (a 1%nat))), true)
   else if bytes_eqb op (s2b "ivalidate") then
     (r_unit (input_validate (parse_suite (a 1%nat)) (parse_input (a 2%nat))), true)
-  else (s2b "unknown-op", true).
+  else run_fields2 f.
 
 (** ---- the specification, evaluated on the same case (third output column).  It does not
     depend on Generated/Tables.v, so a wrong table entry shows up as impl <> spec even though
